@@ -634,9 +634,11 @@ def multi_module(rng, nfiles=6):
         keep = [0, 1, 2] + rng.sample([3, 4, 5], nfiles - 3)
         perm = [k for k in perm if k in keep]
     names = names[:len(perm)]
+    used = " ".join(MULTI_SHAPES[k] for k in perm)
     out = ["package src\n", "import ("]
     for e in exts:
-        out.append('\t%s "%s"' % (e["alias"], e["path"]))
+        if e["alias"] + "." in used:          # Go rejects an unused import in the SOURCE package
+            out.append('\t%s "%s"' % (e["alias"], e["path"]))
     out += ['\tnethttp "net/http"', ")\n", "type Local struct{ X int }\n"]
     for n, k in zip(names, perm):
         out.append("type %s interface {\n\t%s\n}\n" % (n, MULTI_SHAPES[k]))
